@@ -4,9 +4,9 @@
  *             (lib/vorbisenc.c, real lib/modes tables); vorbis_info_init, vorbis_info_clear (lib/info.c)
  * cut       : the registry free hooks (floor1/res0/mapping0 free_info, _vi_psy_free) -> release exactly the object passed (as the real ones do);
  *             vorbis_staticbook_destroy -> CHECKs that an encoder-side book is a static table (allocedp==0) and releases nothing
- * pre-state : what get_setup_template hands over (tmpl-* jobs): template TI, base_setting = a float value in [IS,IS+1) or the clamp IS+1-.001;
+ * pre-state : what get_setup_template hands over (tmpl-* jobs): template TI, base_setting = IS + one of four fractions (configuration, see below);
  *             channels/rate admitted by the template; every field an encode-ctl request can change before set-up is frozen is arbitrary
- *             within the range that request enforces (managed flag, bit-rate fields, coupling flag, low pass 2..99 kHz, impulse tune -15..0)
+ *             within the range that request enforces (managed flag: one job per value; bit-rate fields, coupling flag, low pass 2..99 kHz, impulse tune -15..0)
  * assert    : every table walk stays inside the template arrays and the info's parameter slots (standard pointer/bounds obligations on the
  *             real code); set-up returns 0; books/floors/residues/maps/modes/psys counts match the slots filled; after vorbis_info_clear
  *             nothing allocated by set-up is left (memory-leak obligation) and nothing is released twice.
@@ -39,6 +39,12 @@ int ov_ilog(ogg_uint32_t v){ int ret; for(ret=0;v;ret++)v>>=1; return ret; }
 #ifndef IS
 #define IS 0
 #endif
+#ifndef MG
+#define MG 0
+#endif
+#ifndef DSK
+#define DSK 1
+#endif
 void harness(void){
   const ve_setup_data_template *T=setup_list[TI];
   vorbis_info vi; vorbis_info_init(&vi);
@@ -47,15 +53,18 @@ void harness(void){
   ASSUME(ch>=1 && ch<=255); if(T->coupling_restriction!=-1) ASSUME(ch==T->coupling_restriction);
   ASSUME(sr>=T->samplerate_min_restriction && sr<=T->samplerate_max_restriction && sr>0);
   ASSUME(IS+1<=T->mappings);
-  /* contract of get_setup_template (tmpl-*) */
-  if(ND_BOOL()){ float f=ND_float(); ASSUME(f>=(float)IS && f<(float)(IS+1)); hi->base_setting=f; }
-  else hi->base_setting=IS+1-.001;
+  /* contract of get_setup_template (tmpl-*): a float value in [IS,IS+1) or the clamp IS+1-.001.  The fraction is CONFIGURATION (DSK: 0 = IS exactly,
+     1 = IS+.5, 2 = largest float below IS+1, 3 = the clamp value): with a symbolic fraction every worker's `int is=s` is a symbolic table index and
+     the table-driven loops no longer have concrete trip counts (measured: no verdict).  The one index that depends on the fraction itself
+     (vorbis_encode_compand_setup) has its own job with a symbolic setting (compand-idx-*). */
+  { float top=(float)(IS+1); unsigned u; memcpy(&u,&top,4); u--; memcpy(&top,&u,4);
+    hi->base_setting= DSK==0?(double)IS : DSK==1?IS+.5 : DSK==2?(double)top : IS+1-.001; }
   hi->setup=T; hi->req=ND_double();
   /* encode-ctl requests before the set-up (ranges enforced by vorbis_encode_ctl; lowpass_altered keeps the request over the template value) */
   if(ND_BOOL()){ double lp=ND_double(); ASSUME(lp>=2. && lp<=99.); hi->lowpass_kHz=lp; hi->lowpass_altered=1; }
   { double it=ND_double(); ASSUME(it>=-15. && it<=0.); hi->impulse_noisetune=it; }
   vorbis_encode_setup_setting(&vi,ch,sr);
-  hi->managed=ND_int(); hi->coupling_p=ND_BOOL();
+  hi->managed=MG; /* configuration: the managed flag selects between two complete book sets; symbolic, every later book number is symbolic */ hi->coupling_p=ND_BOOL();
   hi->bitrate_min=ND_long(); hi->bitrate_max=ND_long(); hi->bitrate_av=ND_long(); hi->bitrate_reservoir=ND_long();
   hi->bitrate_av_damp=ND_double(); hi->bitrate_reservoir_bias=ND_double();
   int r=vorbis_encode_setup_init(&vi);
